@@ -270,6 +270,10 @@ class Check:
                 # EARLIER case left behind (a reader starting late on a loaded machine) dies here too, so
                 # the culprit is established by re-running the candidates alone.
                 bad = start + max(announced, 0)
+                if (results[bad] or "").startswith("HANG"):
+                    # the harness watchdog gave up on this case and left: its result stands, go on with the next
+                    start = bad + 1
+                    continue
                 culprit, why = bad, crash_line(err)
                 if bad not in tried:
                     tried.add(bad)
@@ -337,7 +341,7 @@ class Check:
             spec_bad = s != "-" and pi != s
             if i != m:
                 mism += 1
-                if spec_bad or i.startswith(("CRASH", "PANIC")) and not m.startswith(("CRASH", "PANIC")):
+                if spec_bad or i.startswith(("CRASH", "PANIC", "HANG")) and not m.startswith(("CRASH", "PANIC", "HANG")):
                     self.violations.append({"case": c, "impl": i, "model": m, "spec": s, "signature": g,
                                             "why": "implementation differs from the model and violates the property oracle"})
                 else:
